@@ -518,8 +518,10 @@ def value_poly(sy, d):
     return p
 
 
-def ret_table(prog, fn, alias=None, slice_param=None, only_ok=False):
-    """[(sorted atom strings, return-value name)] over all feasible return paths of fn."""
+def ret_table(prog, fn, alias=None, slice_param=None, only_ok=False, quantified=False):
+    """[(sorted atom strings, return-value name)] over all feasible return paths of fn.  With `quantified`, the outcome
+    atoms of checking loops and of find / position / any / all are rewritten into `forall` / witness form
+    (agvlib.quant), so that a loop with an early return and the equivalent iterator chain give the same rows."""
     from .guards import analysis as _an
     body = prog.body(fn)
     an = _an(prog, body)
@@ -527,6 +529,7 @@ def ret_table(prog, fn, alias=None, slice_param=None, only_ok=False):
         slice_param = 1 if body.argc >= 1 and body.locals[1]["ty"].get("k") == "ref" and body.locals[1]["ty"]["t"].get("k") in ("slice", "str") else 99
     sy = Sym(prog, an, slice_param=slice_param)
     out = []
+    rws = None
     for rb in body.returns():
         ps = forward_paths(an, rb)
         if ps is None:
@@ -559,8 +562,20 @@ def ret_table(prog, fn, alias=None, slice_param=None, only_ok=False):
                 finally:
                     if env:
                         sy.set_cases(None)
-                val = apply_alias("|".join(sorted(vals)), alias)
+                val0 = "|".join(sorted(vals))
+                ats0 = [atom_str(a) for a in ats]
+                if quantified:
+                    if rws is None:
+                        from . import quant as _quant
+                        rws = _quant.row_rewrites(prog, an, sy)
+                    ats0, val0 = _quant_rewrite(rws, ats0, val0)
+                val = apply_alias(val0, alias)
                 if only_ok and not val.startswith("Ok{"):
                     continue
-                out.append((sorted(apply_alias(atom_str(a), alias) for a in ats), val))
+                out.append((sorted(apply_alias(a, alias) for a in ats0), val))
     return sorted(out)
+
+
+def _quant_rewrite(rws, ats, val):
+    from . import quant as _quant
+    return _quant.rewrite_row(rws, ats, val)
